@@ -24,6 +24,8 @@ pub fn setup(root: &Path) {
     );
 }
 
+const JUNK: &str = "digraph OLD {\n7 [label=\"stale\"];\n7 -> 7;\n7 -> 7;\n7 -> 7;\n7 -> 7;\n7 -> 7;\n7 -> 7;\n7 -> 7;\n7 -> 7;\n7 -> 7;\n7 -> 7;\n7 -> 7;\n7 -> 7;\n7 -> 7;\n7 -> 7;\n7 -> 7;\n7 -> 7;\n7 -> 7;\n7 -> 7;\n7 -> 7;\n7 -> 7;\n7 -> 7;\n7 -> 7;\n7 -> 7;\n7 -> 7;\n7 -> 7;\n7 -> 7;\n7 -> 7;\n7 -> 7;\n7 -> 7;\n7 -> 7;\n7 -> 7;\n7 -> 7;\n7 -> 7;\n7 -> 7;\n7 -> 7;\n7 -> 7;\n7 -> 7;\n7 -> 7;\n7 -> 7;\n7 -> 7;\n7 -> 7;\n7 -> 7;\n7 -> 7;\n7 -> 7;\n7 -> 7;\n7 -> 7;\n7 -> 7;\n7 -> 7;\n7 -> 7;\n7 -> 7;\n7 -> 7;\n7 -> 7;\n7 -> 7;\n7 -> 7;\n7 -> 7;\n7 -> 7;\n7 -> 7;\n7 -> 7;\n7 -> 7;\n7 -> 7;\n}\n";
+
 fn scratch_file(root: &Path) -> std::path::PathBuf {
     root.join(format!(
         ".dot-{}",
@@ -35,6 +37,9 @@ fn scratch_file(root: &Path) -> std::path::PathBuf {
 pub fn check_cfg(cfg: &Cfg, root: &Path) -> Option<(String, String)> {
     let js = cfg.to_json();
     let sf = scratch_file(root);
+    // the output file already exists and is longer than anything rendered here: whatever is left of
+    // it after rendering would show up as nodes/edges that the configuration does not declare
+    let _ = std::fs::write(&sf, JUNK.as_bytes());
     let res = guarded(|| monorail::verif::index_edges(&js, root, &sf));
     let edges = match res {
         Err(p) => return Some(("panic".into(), p)),
